@@ -108,7 +108,9 @@ def real_apply(cfg, op):
 
 def materialize(sig, init, hist):
   fn = S.fn(sig)
-  if init:
+  if init and init[0][0] == '@pos0':
+    cfg = fdl.Config(fn, init[0][1], **dict(init[1:]))
+  elif init:
     cfg = fdl.Config(fn, **dict(init))
   else:
     cfg = fdl.Config(fn)
@@ -326,6 +328,13 @@ def explore(sig, phase, b, res, first_only=True):
       hist.append(('sets', [M.VA, None, None], [B]))
     if hist:
       inits.append((None, m1, hist))
+    # a **kwargs entry named like a positional-only / *args parameter can
+    # only come from the constructor; by attribute those names stay rejected
+    m2 = M.Model(sig)
+    if m2.has_kw and m2.po_names:
+      m2.prefix[0] = A
+      m2.K[m2.po_names[0]] = B
+      inits.append(((('@pos0', A), (m2.po_names[0], B)), m2))
   seen = {}
   frontier = collections.deque()
   for it in inits:
@@ -352,7 +361,7 @@ def explore(sig, phase, b, res, first_only=True):
     # differential: canonical construction of the same state
     cfg2 = canonical_build(sig, model)
     c1 = canon.canon_cfg(cfg)
-    c2 = canon.canon_cfg(cfg2)
+    c2 = canon.canon_cfg(cfg2) if cfg2 is not None else c1
     res.transitions += 1
     if c1 != c2:
       res.violation(
@@ -419,6 +428,20 @@ def explore(sig, phase, b, res, first_only=True):
 
 def canonical_build(sig, model):
   fn = S.fn(sig)
+  collide = [n for n in model.K if n in model.po_names or n == 'va']
+  if collide:
+    if model.prefix[0] is M.UNSET:
+      return None          # not constructible directly: no differential
+    cfg = fdl.Config(fn, model.prefix[0], **{n: model.K[n] for n in collide})
+    for i, v in enumerate(model.prefix):
+      if v is not M.UNSET and i > 0:
+        cfg[i] = v
+    if model.V:
+      cfg[fdl.VARARGS:] = list(model.V)
+    for n, v in model.K.items():
+      if n not in collide:
+        setattr(cfg, n, v)
+    return cfg
   cfg = fdl.Config(fn)
   for i, v in enumerate(model.prefix):
     if v is not M.UNSET:
